@@ -24,7 +24,7 @@ variable [Add β] [Sub β] [Mul β] [Div β] [Neg β] [LT β] [DecidableLT β]
 
 theorem fit_inv (P : Params α β) (D : Data α β) (ord : List Nat → List Nat) (p : Nat) (t : Tree.Tree α)
     (h : fit P D ord p = some t) :
-    ∃ u, fitNode P D ord (sortedAll D p) (D.n + 1) (allMask D) 0 = some u ∧ t = (prune u).1 := by
+    ∃ u, fitNode P D ord (sortedAll D p) (fitFuel P D) (allMask D) 0 = some u ∧ t = (prune u).1 := by
   unfold fit at h
   split at h
   · exact absurd h (by simp)
@@ -85,7 +85,7 @@ theorem reported_decrease_is_actual_partial (P : Params α β) (D : Data α β) 
     ForallSplits D (fun m f s dec => ∃ b,
       pickBest (candidates P D (sortedAll D p) m (freqOf D (rowsOf m))) = some b ∧
       f = b.feat ∧ s = b.split ∧
-      dec = P.cast (impurity P (freqOf D (rowsOf m))) - P.cast b.score) (allMask D) t := by
+      dec = P.cast (impurity P (inLabelOrder D (freqOf D (rowsOf m)))) - P.cast b.score) (allMask D) t := by
   obtain ⟨u, hu, rfl⟩ := fit_inv P D ord p t h
   refine prune_forallSplits D _ _ _ (fitNode_forallSplits P D ord _ _ ?_ _ _ _ _ hu)
   intro mask depth b _ hb _ _ _
@@ -140,14 +140,14 @@ theorem leaf_predicts_a_mode_partial {α β : Type}
     [LinearOrder β] [Add β] [Sub β] [Mul β] [Div β] [Neg β] [OfNat β 0] [OfNat β 1] [NatCast β]
     (P : Params α β) (D : Data α β) (ord : List Nat → List Nat)
     (hord : ∀ l c, c ∈ ord l ↔ c ∈ l) (p : Nat) (u : Tree.Tree α)
-    (hu : fitNode P D ord (sortedAll D p) (D.n + 1) (allMask D) 0 = some u) (hno : NoHalf u) :
+    (hu : fitNode P D ord (sortedAll D p) (fitFuel P D) (allMask D) 0 = some u) (hno : NoHalf u) :
     ForallLeaves D (fun m pred =>
       (∃ i ∈ rowsOf m, D.y i = pred) ∧
       ∀ c ∈ presentClasses D (rowsOf m), classWeight D (rowsOf m) c ≤ classWeight D (rowsOf m) pred)
       (allMask D) u := by
   refine fitNode_forallLeaves P D ord _ _ ?_ _ _ _ _ hu ?_ hno
   · intro mask pred hm
-    obtain ⟨h1, h2⟩ := modalOf_spec _ _ _ hm
+    obtain ⟨h1, h2⟩ := modalOf_spec _ _ _ _ hm
     rw [hord] at h1
     refine ⟨?_, fun c hc => h2 c ((hord _ _).mpr hc)⟩
     simp only [presentClasses, List.mem_filter, List.any_eq_true, beq_iff_eq] at h1
@@ -173,14 +173,14 @@ theorem prune_keeps_mode {β : Type} [LinearOrder β] [Add β] [AddLeftMono β] 
 def exP : Params Int Int :=
   { entropy := false, maxDepth := some 2, minSplit := 2, minLeaf := 1, minDec := 1, eps := 1,
     log2 := fun x => x, cast := id }
-def exD : Data Int Int := { xs := [[0], [2], [4], [6]], ys := [0, 0, 1, 1], ws := [], K := 2 }
-def exT : Tree.Tree Int := .node 0 1 1 1 0 (.leaf 0 1) (.node 0 3 1 1 1 (.leaf 0 2) (.leaf 1 2))
+def exD : Data Int Int := { xs := [[0], [2], [4], [6]], ys := [0, 0, 1, 1], ws := [], K := 2, lord := [0, 1] }
+def exT : Tree.Tree Int := .node 0 1 1 0 0 (.leaf 0 1) (.node 0 3 1 1 1 (.leaf 0 2) (.leaf 1 2))
 
 /-- hypothesis `fit P D ord p = some t` of `depth_le_max`, `split_min_samples`, `decrease_ge_min`,
 `split_sides_nonempty`, `reported_decrease_is_actual_partial` -/
 example : fit exP exD id 1 = some exT := by decide
 /-- hypotheses of `leaf_predicts_a_mode_partial` -/
-example : fitNode exP exD id (sortedAll exD 1) (exD.n + 1) (allMask exD) 0 = some exT ∧ NoHalf exT ∧
+example : fitNode exP exD id (sortedAll exD 1) (fitFuel exP exD) (allMask exD) 0 = some exT ∧ NoHalf exT ∧
     (∀ (l : List Nat) c, c ∈ id l ↔ c ∈ l) := by
   refine ⟨by decide, by simp [exT, NoHalf], fun _ _ => Iff.rfl⟩
 /-- the sweep of `sweep_cand_minLeaf` evaluates candidates -/
